@@ -22,6 +22,43 @@ REPO = Path("/repo")
 
 # (property, name, relative file, old text, new text)
 MUTANTS = [
+    # ---- C11
+    ("C11", "revert_eof_catch", "src/fcp/parser.py",
+     "    try:\n        fcp_ast = fcp_parser.parse(source)\n    except UnexpectedInput as e:\n        return _lark_error(logger, filename, source, e)",
+     "    from lark import UnexpectedCharacters\n    try:\n        fcp_ast = fcp_parser.parse(source)\n    except UnexpectedCharacters as e:\n        return _lark_error(logger, filename, source, e)"),
+    ("C11", "revert_visit_error_catch_root", "src/fcp/parser.py",
+     "        ).transform(fcp_ast)\n    except VisitError as e:\n        return _visit_error(filename, e)\n\n    return Ok(fcp.attempt())",
+     "        ).transform(fcp_ast)\n    except ZeroDivisionError as e:\n        return _visit_error(filename, e)\n\n    return Ok(fcp.attempt())"),
+    ("C11", "eof_line_minus_1", "src/fcp/parser.py",
+     '    line = e.line if e.line > 0 else len(source.split("\\n"))', "    line = e.line"),
+    ("C11", "log_node_off_by_one", "src/fcp/error.py",
+     "            lines[node.meta.line - 1],", "            lines[node.meta.line],"),
+    ("C11", "sources_by_basename_only", "src/fcp/error.py",
+     "        if filename not in self.sources:\n            filename = Path(filename).name",
+     "        filename = Path(filename).name"),
+    ("C11", "shared_logger_sources_never_refreshed", "src/fcp/error.py",
+     "        self.sources[name] = source\n", "        self.sources.setdefault(name, source)\n"),
+    # ---- C20
+    ("C20", "revert_merge_fix", "src/fcp/specs/v2.py",
+     "        self.services += fcp.services\n        self.devices += fcp.devices\n", ""),
+    ("C20", "merge_drops_enums", "src/fcp/specs/v2.py",
+     "        self.enums += fcp.enums\n", "        self.enums += [e for e in fcp.enums if not self.structs]\n"),
+    ("C20", "resolve_against_cwd", "src/fcp/parser.py",
+     '        filename = self.path / (".".join(tree.children).replace(".", "/") + ".fcp")',
+     '        filename = pathlib.Path(".".join(tree.children).replace(".", "/") + ".fcp")'),
+    ("C20", "resolve_against_root_dir", "src/fcp/parser.py",
+     "                pathlib.Path(filename).resolve(),\n                self.parser_context,",
+     "                pathlib.Path(filename.name).resolve(),\n                self.parser_context,"),
+    ("C20", "nested_module_dir_not_propagated", "src/fcp/parser.py",
+     "        self.path = self.filename.parent\n", "        self.path = self.filename.parent if not parser_context.modules else pathlib.Path(next(iter(parser_context.modules.values())) and getattr(parser_context, 'rootdir', self.filename.parent))\n        parser_context.rootdir = getattr(parser_context, 'rootdir', self.path)\n"),
+    ("C20", "dots_not_translated_beyond_first", "src/fcp/parser.py",
+     '(".".join(tree.children).replace(".", "/") + ".fcp")', '(".".join(tree.children).replace(".", "/", 1) + ".fcp")'),
+    ("C20", "missing_file_message_without_name", "src/fcp/parser.py",
+     '            return error(f"File not found: {pathlib.Path(e.filename).name}")', '            return error("File not found")'),
+    ("C20", "nested_import_error_swallowed", "src/fcp/parser.py",
+     "        self.fcp.merge(\n            fcp.map_err(", "        if fcp.is_err() and len(self.parser_context.modules) > 2:\n            return Ok(())\n        self.fcp.merge(\n            fcp.map_err("),
+    ("C20", "duplicate_merge_of_grandchildren", "src/fcp/specs/v2.py",
+     "        self.impls += fcp.impls\n", "        self.impls += fcp.impls\n        self.impls += [i for i in fcp.impls if i.protocol != 'default' and len(fcp.services) > 0]\n"),
     # ---- C04
     ("C04", "revert_enum_width_fix", "src/fcp/encoding.py",
      "            return int(fcp.get_enum(type.name).unwrap().get_packed_size())",
